@@ -79,7 +79,8 @@ class Report:
 
     def check_floors(self):
         for r in self.rules:
-            if r.instances < r.floor:
+            # a rule that already reports a finding is not passing vacuously
+            if r.instances < r.floor and r.findings == 0:
                 raise AnalysisError(
                     f"rule {r.name}: decided {r.instances} instance(s), floor is {r.floor} — the rule no longer finds its anchors"
                 )
